@@ -93,8 +93,8 @@ theorem write_one_datagram (frames : List Bytes) (sent : List Bytes) :
   | nil => simp
   | cons f fs ih => rw [List.foldl_cons, ih]; simp [Udp.write]
 
-/-- **writes and flushes never disturb the receive side**: for any interleaving of reads (any offered sizes),
-flushes and writes, the chunks served, followed by what the adaptor still holds and the datagrams still to
+/-- **writes, flushes and failed receive attempts never disturb the receive side**: for any interleaving of reads
+(any offered sizes), flushes, writes and reads that find nothing to receive, the chunks served, followed by what the adaptor still holds and the datagrams still to
 arrive, are exactly the buffered bytes and the datagrams in order — and the datagrams sent are exactly the
 written frames, one each, in order -/
 theorem ops_conserved (s : Udp.ASt) (ops : List Udp.AOp) (hd : ∀ d ∈ s.ds, d.length ≤ maxDatagram) :
@@ -104,6 +104,7 @@ theorem ops_conserved (s : Udp.ASt) (ops : List Udp.AOp) (hd : ∀ d ∈ s.ds, d
   | cons op ops ih =>
     cases op with
     | fl => simpa [Udp.runOps] using ih s hd
+    | idle => simpa [Udp.runOps] using ih s hd
     | wr f => simpa [Udp.runOps] using ih { s with sent := Udp.write f s.sent } hd
     | rd o =>
       obtain ⟨buf, ds, sent⟩ := s
@@ -139,6 +140,7 @@ theorem ops_sent_prefix (s : Udp.ASt) (ops : List Udp.AOp) :
   | cons op ops ih =>
     cases op with
     | fl => simpa [Udp.runOps, written] using ih s
+    | idle => simpa [Udp.runOps, written] using ih s
     | wr f =>
       obtain ⟨k, hk⟩ := ih { s with sent := Udp.write f s.sent }
       refine ⟨k + 1, ?_⟩
